@@ -212,13 +212,23 @@ def attempt(fn, *args):
         return None, f"{type(ex).__name__}: {ex}"[:300]
 
 
-def repro_record(rid, M, L, thr, nmax=None):
+def big_matrix(seed, n, r):
+    """seeded n x n PSD matrix of rank r with O(1) entries (regenerated on replay)"""
+    rng = np.random.default_rng([seed, 1717, n, r])
+    A = rng.standard_normal((n, r)) / np.sqrt(r)
+    M = A @ A.T
+    return (M + M.T) / 2
+
+
+def repro_record(rid, M, L, thr, nmax=None, rowmax=False):
     M = np.asarray(M, dtype=float)
     if L is None:                                             # the routine raised
         L = np.full((1, M.shape[0]), np.nan)
     L = np.asarray(L, dtype=float).reshape(-1, M.shape[0])
     fin = bool(np.all(np.isfinite(L)))
     E = np.abs(M - L.T @ L) if fin else np.full(M.shape, np.inf)
+    if rowmax:
+        E = E.max(axis=1)
     return {"id": rid, "errs": E.reshape(-1).tolist(), "thr": thr, "scale": float(np.abs(M).max()),
             "tolexp": TOL_REPRO, "finite": fin, "nvec": L.shape[0], "nmax": M.shape[0] if nmax is None else nmax}
 
@@ -314,6 +324,25 @@ def run(chk: Check):
             L, exc = attempt(code.jax_chol, M, r)
             push(repro_record(0, M, L, 0.0), routine="jax", inst=f"float-{k}", cnt=r, rank=r, n=n, M=M.tolist(),
                  nontrivial=True, exception=exc)
+
+    # ------------------------------------------------------------------ LARGE seeded float matrices
+    # "every symmetric PSD matrix ... any rank including full rank": buffer sizes, iteration caps and anything else
+    # that scales with sqrt(n) or a fixed multiple only shows beyond n ~ 100.  Row maxima of |M - L^T L| are handed
+    # to the judge (the predicate is on the maximum), the matrix is regenerated from (seed, n, r) on replay.
+    big_sizes = [40, 101, 144, 190] if chk.tier == "quick" else [40, 64, 101, 121, 144, 169, 190, 230, 300]
+    for k, n in enumerate(big_sizes):
+        for r in (n, max(1, int(0.9 * n)), max(1, n // 3), 1):
+            M = big_matrix(chk.seed, n, r)
+            md = float(M.diagonal().max())
+            for t in (1e-8 * max(1.0, md), 1e-4 * md):
+                L, exc = attempt(code.numpy_chol, M, t)
+                push(repro_record(0, M, L, t, rowmax=True), routine="numpy", inst=f"big-{n}-{r}", thr=t, rank=r, n=n, model_ok=None,
+                     big={"seed": chk.seed, "n": n, "r": r}, nontrivial=L is not None and L.shape[0] > 0, exception=exc)
+        if n <= 64:
+            M = big_matrix(chk.seed, n, n)
+            L, exc = attempt(code.jax_chol, M, n)
+            push(repro_record(0, M, L, 0.0, rowmax=True), routine="jax", inst=f"big-{n}-{n}", cnt=n, rank=n, n=n,
+                 big={"seed": chk.seed, "n": n, "r": n}, nontrivial=True, exception=exc)
 
     # ------------------------------------------------------------------ observation (outside the contract)
     # TLC (InvScan): asked for more vectors than the rank, the scan loop necessarily divides by a zero pivot
@@ -513,7 +542,16 @@ def replay(chk: Check, case):
         recs.append(rec)
         info[rec["id"]] = kw
     M = np.array(c.get("M", [[1.0]]), dtype=float)
-    if c["kind"] == "numpy" and "M" in c:
+    if "big" in c:
+        M = big_matrix(c["big"]["seed"], c["big"]["n"], c["big"]["r"])
+        c = dict(c, M=None)
+        if c["kind"] == "numpy":
+            L = code.numpy_chol(M, c["thr"])
+            push(repro_record(0, M, L, c["thr"], rowmax=True), **{k: c[k] for k in ("routine", "inst", "thr", "rank", "n", "big")})
+        else:
+            L = code.jax_chol(M, c["cnt"])
+            push(repro_record(0, M, L, 0.0, rowmax=True), **{k: c[k] for k in ("routine", "inst", "cnt", "rank", "n", "big")})
+    elif c["kind"] == "numpy" and "M" in c:
         L = code.numpy_chol(M, c["thr"])
         push(repro_record(0, M, L, c["thr"]), **{k: c[k] for k in ("routine", "inst", "thr", "rank", "n")}, M=c["M"])
     elif c["kind"] == "jax":
